@@ -1,4 +1,5 @@
 """C14 — fixed-form sources document the same as their free-form equivalent."""
+import json
 import shutil
 import tempfile
 
@@ -10,17 +11,29 @@ from harness.impl.reader import run_reader
 from harness.props.c02 import coq_piece, coq_impl
 
 IMPORTS = "From Ford Require Import Base.Str Lex.Quote Lex.Reader Lex.ReaderSpec Lex.Fixed Corr.C02 Corr.C14."
-THEOREMS = ["C14_fixed_as_free", "C14_fixed_statements", "C14_partial", "C14_refuted_inline_comment",
-            "C14_refuted_blank6", "C14_refuted_literal_split"]
-REGIONS = {"inline_comment_continued": 1, "blank6_before_continuation": 2}
-KEYS = {1: "inline-comment-on-continued-line", 2: "blank-line-of-6-columns-before-continuation",
-        3: "inline-comment-on-continued-line"}
+THEOREMS = ["C14_fixed_as_free", "C14_fixed_statements", "C14_std_equivalent", "C14_partial",
+            "C14_refuted_literal_split"]
+# the one open finding: a character literal continued across lines
+REGIONS = {"literal_split": 1}
+KEYS = {1: "literal-continued-across-lines"}
 RAW_POOL = ["      x = 1", "     1   + 2", "C comment", "c", "*", "! x", "  ! y", "#if A", "", "     ", "      ",
             "   10 continue", "10    y = 2", "      z = 'abc", "     &def'", "      a = 1 ! c", "     +  + b",
             "!$omp parallel", "c$omp do", "C$OMPX", "\t x = 1", "     0 w = 3", "12345 v = 4",
             "      call f(a,                                                    bcdefghijklmnop)qrs",
             "      long = 1                                                          SEQ00010",
-            "     2     + 3                                                          SEQ00020"]
+            "     2     + 3                                                          SEQ00020",
+            # inline comments (plain, documentation, with quotes, '!' inside literals), with and without text in 73+
+            "      a = 1 !! doc", "      s = 'a!b' ! c", "      s = \"it's\" ! isn't", "      s = 'open ! c",
+            "      a = 1 ! 'q' ! r", "      a = 1!c", "   20 b = 2 ! c", "      !", "      a = '!' // \"!\" !x",
+            "      x = 1 ! c                                                         SEQ00030",
+            "      x = 'a!b'   !! doc                                                SEQ00040",
+            "      x = 1                                                           ! cSEQ00050",
+            "      x = 1                                                            !SEQ00060",
+            "   30 y = 'lit                                                        ! SEQ00070",
+            # whitespace-only lines of every kind
+            "       ", "        ", " " * 20, " " * 66, " " * 72, " " * 73, " " * 74, " " * 80, "\t", "      \t",
+            "\t\t\t\t\t\t\t", " ", "  ", "    ", "     1", "     1 ", "     !", "      ! only a comment",
+            "c$omp parallel do", "c$omp& private(x) ! c", "*$OMP  end", "   10", "12345", "  end", "   10 "]
 
 
 def nlines(lines):
@@ -59,13 +72,24 @@ def run(chk):
                                                         "lines": lines, "impl": out}, False)
         # B. generated fixed-form statements through converter + reader; statements must equal the tokens'
         fcases = []
-        hits = {1: 0, 2: 0, 3: 0}
+        hits = {1: 0}
+        shape_counts = {}
+        # fixed regression inputs first (former witnesses of repaired defects): no region, judged like any other
+        corpus = json.load(open(core.VERIF / "corpus" / "C14" / "regressions.json"))["cases"]
+        for c in corpus:
+            pss = [[tuple(p) for p in ps] for ps in c["pieces"]]
+            res = run_reader(c["lines"], fixed=True, length_limit=c["length_limit"], workdir=work)
+            fcases.append((c["length_limit"], c["lines"], pss, 0, res))
+            chk.count(("fixed", c["length_limit"], tuple(c["lines"])), nontrivial=True,
+                      sample={"lines": c["lines"], "impl": res})
         for _ in range(700 if quick else 20000):
             ll = rng.random() < 0.8
-            lines, pss, regions, ncont = FL.gen_file(rng, {"length_limit": ll})
+            lines, pss, regions, ncont, shapes = FL.gen_file(rng, {"length_limit": ll})
             res = run_reader(lines, fixed=True, length_limit=ll, workdir=work)
             region = sum(REGIONS[r] for r in regions)
             fcases.append((ll, lines, pss, region, res))
+            for sh in shapes:
+                shape_counts[sh] = shape_counts.get(sh, 0) + 1
             chk.count(("fixed", ll, tuple(lines)), nontrivial=ncont > 0,
                       sample={"lines": lines, "impl": res} if ncont else None)
         terms = [f"({coq_bool(ll)}, {coq_list(coq_str(l + chr(10)) for l in lines)}, "
@@ -91,13 +115,10 @@ def run(chk):
                                                         "equivalent", "length_limit": ll, "lines": lines,
                                                         "impl": out, "region": region}, True)
         chk.extra["known_region_cases"] = hits
-        # known findings still present?
-        r = run_reader(["      x = 1 ! c", "     &  + 2"], fixed=True, workdir=work)
-        chk.known("inline-comment-on-continued-line", r != ("ok", ["x = 1 + 2"]))
-        r = run_reader(["      x = 1", "       ", "     &  + 2"], fixed=True, workdir=work)
-        chk.known("blank-line-of-6-columns-before-continuation", r != ("ok", ["x = 1 + 2"]))
+        chk.extra["layout_shapes"] = dict(sorted(shape_counts.items()))
+        # the known finding still present?  (by the standard the literal is ab, 59 blanks up to column 72, cd)
         r = run_reader(["      s = 'ab", "     &cd'"], fixed=True, workdir=work)
-        chk.known("literal-continued-across-lines", r != ("ok", ["s = 'abcd'"]))
+        chk.known("literal-continued-across-lines", r != ("ok", ["s = 'ab" + " " * 59 + "cd'"]))
     finally:
         shutil.rmtree(work, ignore_errors=True)
 
@@ -116,8 +137,11 @@ def finish(chk):
                    "ford.fixed2free2 and FortranReader(fixed=True) by differential runs",
         trusted_base=["Coq 8.16.1 kernel (+ vm_compute)", "hand-written models Lex/Fixed.v, Lex/Reader.v",
                       "harness generators/adapters", "7-bit ASCII; lines end with a newline"],
-        rule="raw fixed-form line soups (regular/irregular/long/short/OMP/cpp) for the converter; generated "
-             "token statements rendered in fixed form with labels, continuation characters, comment-line "
-             "styles, sequence fields, blank and short lines; non-trivial = has a continuation line",
+        rule="raw fixed-form line soups (regular/irregular/long/short/blank/OMP/cpp, inline comments) for the "
+             "converter; generated token statements rendered in fixed form with labels, continuation characters, "
+             "comment-line styles, sequence fields, whitespace-only lines of width 0..80 and inline comments "
+             "(plain, documentation, '!' in literals) on last and continued lines; recorded regression inputs "
+             "first; non-trivial = has a continuation line",
         checker_cmd="make theories/Props/C14.vo && coqc theories/Props/C14.v (Print Assumptions)",
-        assumptions=["breaks only between tokens (a token split at column 72 is outside the generator)"])
+        assumptions=["breaks only between tokens (a token split at column 72 is outside the generator), except "
+                     "for one character literal continued across lines (the open finding's region)"])
